@@ -4,7 +4,7 @@ import ast
 
 from .astutil import src, dotted, call_name
 from .loader import AnalysisError, static_registry
-from .switch import find_machine
+from .switch import find_machine, ShapeUnrecognised, NullMachine
 
 
 def doc_kinds(repo):
@@ -43,7 +43,10 @@ def machines(repo):
                         and name not in ('best_layout', 'fast_fitting_predicate', 'smart_fitting_predicate') else None)
     out = {}
     for name in ('best_layout', 'fast_fitting_predicate', 'smart_fitting_predicate'):
-        out[name] = find_machine(repo.func('layout', name))
+        try:
+            out[name] = find_machine(repo.func('layout', name))
+        except ShapeUnrecognised as e:
+            out[name] = NullMachine(repo.func('layout', name), str(e))
     return out
 
 
